@@ -36,6 +36,7 @@ type config struct {
 	chaos       bool
 	faults      bool
 	kill        bool
+	batch1      bool // request batch size limit of one mutation (every key its own prewrite/commit request)
 	seed        int64
 }
 
@@ -50,6 +51,9 @@ func (c config) String() string {
 	p := "opt"
 	if c.pessimistic {
 		p = "pess"
+	}
+	if c.batch1 {
+		m += "/batch1"
 	}
 	return fmt.Sprintf("%s/%s/%s/chaos=%v/faults=%v/kill=%v", c.backend, m, p, c.chaos, c.faults, c.kill)
 }
@@ -67,6 +71,10 @@ func runConfig(t *testing.T, r *vrep.Report, tr *vrep.Report, cfg config, nClien
 		// The calm configuration (variant 0) keeps real sleeps, so waiting behaves as in production there.
 		_ = failpoint.Enable("tikvclient/fastBackoffBySkipSleep", "return")
 		defer failpoint.Disable("tikvclient/fastBackoffBySkipSleep")
+	}
+	if cfg.batch1 {
+		_ = failpoint.Enable("tikvclient/twoPCRequestBatchSizeLimit", "return")
+		defer failpoint.Disable("tikvclient/twoPCRequestBatchSizeLimit")
 	}
 	rng := rand.New(rand.NewSource(cfg.seed))
 	// initial layout: a few splits
@@ -446,8 +454,11 @@ func TestVerifC01(t *testing.T) {
 	i := int64(0)
 	for round := 0; round < rounds; round++ {
 		for _, c := range cfgs {
-			for _, variant := range []int{0, 1, 2} {
+			for _, variant := range []int{0, 1, 2, 3} {
 				if !vrep.Thorough() && variant == 1 && c.backend == uni.Uni && c.async != c.one {
+					continue
+				}
+				if !vrep.Thorough() && variant == 3 && !(c.backend == uni.Uni && c.async && c.one && !c.pessimistic) && !(c.backend == uni.Mock && c.pessimistic) {
 					continue
 				}
 				i++
@@ -460,6 +471,10 @@ func TestVerifC01(t *testing.T) {
 					// lock-only secondary, so a crash between that secondary's commit and the primary's would make
 					// async-commit recovery roll back an acknowledged transaction there (TiKV writes a Lock record)
 					c.chaos, c.faults, c.kill = true, true, c.backend == uni.Mock || !c.async
+				case 3:
+					// every mutation travels in its own prewrite / commit request (many more partial states on the
+					// store; one-phase commit must give way), under topology churn
+					c.chaos, c.batch1 = true, true
 				}
 				if only := os.Getenv("VERIF_C01_ONLY"); only != "" && !strings.Contains(c.String(), only) {
 					continue
